@@ -452,8 +452,15 @@ int register_mod_src_priv(m_mod_t *mod, m_src_types type, const void *src_data,
             if (ret == 0 && src->type == M_SRC_TYPE_TASK) {
                 ret = start_task(c, src);
             }
+            if (ret != 0) {
+                /* Could not be polled: do not leave it half registered */
+                if (ret == -1) {
+                    ret = -errno;
+                }
+                m_bst_remove(mod->srcs[type], src);
+            }
         }
-        return !ret ? 0 : -errno;
+        return ret;
     }
     m_mem_unref(src);
     return ret;
